@@ -5,6 +5,8 @@ CONSTANTS
   MaxCalls = 3
   MaxDocs = 6
   NTexts = 6
+  TextSel <- AllSel
+  NPool = 3
 INVARIANTS
   Check
 PROPERTIES
